@@ -187,7 +187,7 @@ func (*regexLeaf) getMatchStyle() MatchStyle {
 
 func (l *regexLeaf) match(segment string, params Params, header http.Header) bool {
 	submatches := l.regexp.FindStringSubmatch(segment)
-	if len(submatches) < len(l.binds)+1 {
+	if len(submatches) != len(l.binds)+1 {
 		return false
 	}
 
@@ -196,6 +196,9 @@ func (l *regexLeaf) match(segment string, params Params, header http.Header) boo
 	}
 
 	for i, bind := range l.binds {
+		if bind == "" {
+			continue // A capturing group of the expression itself
+		}
 		params[bind] = submatches[i+1]
 	}
 	return true
@@ -314,8 +317,9 @@ func constructMatchStyleRegex(s *Segment) (*regexp.Regexp, []string, error) {
 	buf := bytes.NewBufferString("^")
 	for _, e := range s.Elements {
 		if e.Ident != nil {
-			// Dots (".") may appear as literals, we need to escape them in a regex.
-			buf.WriteString(strings.ReplaceAll(*e.Ident, ".", `\.`))
+			// Literals may contain characters that are special in a regex (e.g. ".", "+",
+			// "*", "(", ")", "$"), we need to escape them.
+			buf.WriteString(regexp.QuoteMeta(*e.Ident))
 			continue
 		} else if e.BindIdent != nil {
 			binds = append(binds, *e.BindIdent)
@@ -330,7 +334,18 @@ func constructMatchStyleRegex(s *Segment) (*regexp.Regexp, []string, error) {
 				return nil, nil, errors.Errorf("segment has non-regex literal in position %d", e.Pos.Offset)
 			}
 
+			// The expression may contain capturing groups on its own, which take up
+			// sub-match positions after the one of the bind parameter. Reserve those
+			// positions with empty names to keep binds aligned with sub-matches.
+			sub, err := regexp.Compile(*p.Value.Regex)
+			if err != nil {
+				return nil, nil, errors.Wrapf(err, "compile regexp of bind parameter %q near position %d", p.Ident, s.Pos.Offset)
+			}
+
 			binds = append(binds, p.Ident)
+			for i := 0; i < sub.NumSubexp(); i++ {
+				binds = append(binds, "")
+			}
 			buf.WriteString("(")
 			buf.WriteString(*p.Value.Regex)
 			buf.WriteString(")")
@@ -416,6 +431,9 @@ func newLeaf(parent Tree, r *Route, s *Segment, h Handler) (Leaf, error) {
 	}
 
 	for _, bind := range binds {
+		if bind == "" {
+			continue // A capturing group of the expression itself
+		}
 		if _, exists := parentBindSet[bind]; exists {
 			return nil, errors.Errorf("duplicated bind parameter %q in position %d", bind, s.Pos.Offset)
 		}
